@@ -514,9 +514,24 @@ impl LinearModel {
         out.push_str(&format!(" obj: {}\n", objective));
 
         out.push_str("Subject To\n");
+        // generated names must not repeat a user-given name (a row called `c2`
+        // followed by an unnamed second row) nor an earlier generated one
+        let mut used: std::collections::HashSet<String> = self
+            .constraints
+            .iter()
+            .map(|c| c.name())
+            .filter(|name| !name.is_empty())
+            .collect();
         for (i, c) in self.constraints.iter().enumerate() {
             let name = if c.name().is_empty() {
-                format!("c{}", i + 1)
+                let base = format!("c{}", i + 1);
+                let mut name = base.clone();
+                let mut suffix = 1;
+                while !used.insert(name.clone()) {
+                    name = format!("{}_{}", base, suffix);
+                    suffix += 1;
+                }
+                name
             } else {
                 c.name()
             };
